@@ -46,7 +46,8 @@ def main(argv):
                 eng = (b"\x80\x00\x1f\x88" + gen.rbytes(rng, rng.choice([1, 5, 13, 28]), False)).hex()
                 v3 = {"user": "user%d" % rng.randrange(100), "auth": [auth, kt, akey] if auth else None,
                       "priv": [priv, pkt, pkey] if priv else None, "engine_id": eng if given else None, "agent_engine_id": eng,
-                      "boots": rng.randrange(2 ** 31), "time": rng.randrange(2 ** 31)}
+                      "boots": rng.randrange(2 ** 31), "time": rng.randrange(2 ** 31),
+                      "engine_id_empty": (not given) and rng.random() < 0.5}      # "not known" said as b"" instead of None
                 report = {"pdu_tag": 0xA8, "mac": "absent", "encrypt": "no", "flags": 0, "boots": v3["boots"], "time": v3["time"]}
                 # during discovery a stray Report with a foreign message id, engine id and clock arrives first: it must leave no trace
                 stray_report = dict(report, msgid="same+1", engine="80001f8880ee" + "%02x" % rng.randrange(256), boots=7, time=7)
@@ -75,6 +76,22 @@ def main(argv):
                         steps.append({"op": "get", "args": ["1.3.6.1.2.1.1.3.0"], "replies": [[stray]], "_stray": True})
                         stamps.append(None)
                 scs.append({"version": "v3", "mode": mode, "timeout": 0.2, "v3": v3, "steps": steps, "_stamps": stamps, "_given": given})
+    # ---- a user whose key the socket refuses (an empty password), engine id to be discovered: the probe is answered, set_keys
+    # raises, and the session must be left able to try again (same model, Model.Session.py_refresh, Err branch)
+    n_main = len(scs)
+    for auth in ("md5", "sha1"):
+        for priv in (None, "des", "aes"):
+            for which in (("auth", "priv") if priv else ("auth",)):
+                ks = {"md5": 16, "sha1": 20}[auth]
+                eng = (b"\x80\x00\x1f\x88" + gen.rbytes(rng, rng.choice([1, 5, 13, 28]), False)).hex()
+                a = [auth, 0, ""] if which == "auth" else [auth, rng.choice([0, 1, 2]), gen.rbytes(rng, ks, False).hex()]
+                p = None if not priv else [priv, 0, ""] if which == "priv" else [priv, rng.choice([0, 1, 2]), gen.rbytes(rng, ks, False).hex()]
+                v3 = {"user": "user%d" % rng.randrange(100), "auth": a, "priv": p, "engine_id": None, "agent_engine_id": eng,
+                      "boots": rng.randrange(2 ** 31), "time": rng.randrange(2 ** 31), "engine_id_empty": rng.random() < 0.5}
+                report = {"pdu_tag": 0xA8, "mac": "absent", "encrypt": "no", "flags": 0, "boots": v3["boots"], "time": v3["time"]}
+                steps = [{"op": "enter", "replies": [[report]], "default_reply": report} for _ in range(3)]
+                scs.append({"version": "v3", "mode": rng.choice(["sync", "async"]), "timeout": 0.2, "v3": v3, "steps": steps, "_stamps": [],
+                            "_given": False, "_refused": which})
     res, log = vf.run_api_worker("C13", {"scenarios": [{k: v for k, v in sc.items() if not k.startswith("_")} for sc in scs], "model_exe": v3exe}, timeout=1200)
     stray_steps = sum(1 for sc in scs for st in sc["steps"] if st.get("_stray"))
     n = 0
@@ -105,10 +122,24 @@ def main(argv):
                                                               v3["auth"] and v3["auth"][1], "given" if sc["_given"] else "discovered", v3["agent_engine_id"])
             c.count(label + str(v3["user"]), True)
             eng = bytes.fromhex(v3["agent_engine_id"])
-            keys = scen.V3Keys(v3, eng)
 
             def bad(what, extra=None, key="x"):
                 c.violation("%s: %s" % (label, what), {"scenario": {k: v for k, v in sc.items() if not k.startswith("_")}, "detail": extra}, key=key)
+            if sc.get("_refused"):
+                # every attempt: one probe answered, then the refusal; nothing is ever signed or encrypted with a made-up key,
+                # and the engine id, once learned, is the agent's
+                for k, out in enumerate(rec["steps"]):
+                    if out["kind"] == "RET" or out.get("exc") != "ValueError":
+                        bad("entry %d of a session whose %s key is an empty password gave %s, ValueError expected" % (k, sc["_refused"], out.get("exc") or "a result"),
+                            out, key="refused-key-accepted")
+                    for q in out["requests"]:
+                        if "error" in q or q.get("flags", 0) & 3 or q.get("auth") or q.get("priv"):
+                            bad("entry %d sent a message that is malformed, flagged or carries security parameters although no key was accepted" % k, q,
+                                key="refused-key-used")
+                        if q.get("engine_id") not in ("", v3["agent_engine_id"]):
+                            bad("entry %d carries engine id %s" % (k, q.get("engine_id")), q, key="engine-id")
+                continue
+            keys = scen.V3Keys(v3, eng)
             if rec.get("create_error"):
                 bad("session could not be created: %s" % rec["create_error"], key="create")
                 continue
